@@ -21,6 +21,8 @@ GOOD = [
     'COMMIT', 'RUN %default 5 (Pair {} 0)', 'RUN %default 2 (Pair { Elt 2 8 } 1)', 'PATCH AMOUNT 100', 'PATCH NOW 5', 'PATCH SENDER "tz1VSUr8wwNhLAzempoch5d6hLRiTh8Cjcjb"',
     'PATCH AMOUNT', 'AMOUNT', 'NOW', 'SENDER', 'BIG_MAP_DIFF', 'DUMP', 'DUMP 1', 'DROP_ALL', 'LAMBDA nat nat { PUSH nat 1 ; ADD } ; PUSH nat 1 ; EXEC',
     'PUSH nat 3 ; DIP { PUSH nat 4 }', 'parameter unit', 'storage nat',
+    # removal of the only key of a literal big map (its pending diff is then removals only), and re-packing for COMMIT
+    'CDR ; UNPAIR ; NONE nat ; PUSH nat 1 ; UPDATE', 'PAIR ; NIL operation ; PAIR', 'PUSH (option nat) None ; PUSH nat 1 ; UPDATE',
 ]
 BAD = [
     ('failwith', 'PUSH string "boom" ; FAILWITH'),
@@ -265,14 +267,19 @@ def run(ctx):
     # every BAD kind at every position of one fixed representative session (exhaustive)
     base = list(SETUP) + ['EMPTY_BIG_MAP nat nat', 'PUSH (option nat) (Some 9) ; PUSH nat 6 ; UPDATE', 'BEGIN 5 (Pair {} 0)',
                           'UNPAIR ; SWAP ; UNPAIR ; DIG 2 ; SOME ; PUSH nat 1 ; UPDATE ; PAIR ; NIL operation ; PAIR', 'COMMIT', 'RUN %default 5 (Pair {} 0)']
+    # second representative session: a literal big map whose every key is removed again (pending diff = removals only),
+    # inspected with BIG_MAP_DIFF and committed
+    base2 = list(SETUP) + ['BEGIN 7 (Pair { Elt 1 1 } 3)', 'CDR ; UNPAIR ; NONE nat ; PUSH nat 1 ; UPDATE', 'BIG_MAP_DIFF',
+                           'PAIR ; NIL operation ; PAIR', 'COMMIT']
     n = 0
-    for name, bad in BAD:
-        for pos in range(len(base) + 1):
-            n += 1
-            if ctx.mine(n):
-                a = list(base)
-                a.insert(pos, bad)
-                judge(ctx, a, {pos}, None, 'natural-exhaustive')
+    for b in (base, base2):
+        for name, bad in BAD:
+            for pos in range(len(b) + 1):
+                n += 1
+                if ctx.mine(n):
+                    a = list(b)
+                    a.insert(pos, bad)
+                    judge(ctx, a, {pos}, None, 'natural-exhaustive')
     ctx.exhaustive = True
     ctx.require('sessions', 100)
     ctx.require('failing_cells_observed', 100)
